@@ -335,7 +335,8 @@ def payee_readable(tok, has_code):
     if x[-1].isspace() or ord(x[-1]) in (0x85, 0xa0, 0x1680, 0x2028, 0x2029, 0x202f, 0x205f, 0x3000) or 0x2000 <= ord(x[-1]) <= 0x200a:
         return False
     c0 = x[0]
-    return (c0.isalnum() and c0.isascii()) or (ord(c0) > 0x7f and not (0x80 <= ord(c0) <= 0x9f))
+    # only the case the Lean class leaves out although the parser handles it: non-ASCII white space in front
+    return ord(c0) in (0xa0, 0x1680, 0x2028, 0x2029, 0x202f, 0x205f, 0x3000) or 0x2000 <= ord(c0) <= 0x200a
 
 
 def cmp_txn(built, reread, prec):
@@ -479,9 +480,10 @@ def classify(chk, stream, fingerprint, diffs, clean, replay, f15):
     if not diffs:
         chk.count("%s:%s:reads-back" % (stream, "clean" if clean else "outside-CleanText"))
         return
-    if not clean and any(d.startswith(READABLE_PAYEE) for d in diffs):
+    if not clean and len(diffs) == 1 and READABLE_PAYEE in diffs[0]:
+        # the payee is the ONLY thing that differs (a non-clean code or comment spills into the payee: those stay with F15)
         chk.oracle_failures += 1
-        chk.violation("import output does not read back as the transaction built: %s" % [d for d in diffs if d.startswith(READABLE_PAYEE)][0],
+        chk.violation("import output does not read back as the transaction built: %s" % [d for d in diffs if READABLE_PAYEE in d][0],
                       dict(replay, differences=diffs, note="the payee is outside the Lean class CleanText (Unicode white space in front), "
                                                            "so no theorem speaks about it; the header parser reads such a payee back as written"))
         return
